@@ -32,14 +32,15 @@ def run(chk):
     if WIP:
         _wrap_run()
     else:
-        chk.build(["theories/Corr/C01types.vo", "theories/Props/C01types.vo"])
-        chk.props("theories/Props/C01types.v", M.THEOREMS)
+        chk.build(M.BUILD_TARGETS)
+        chk.props(M.PROPS_FILE, M.THEOREMS)
     M.run_part(chk)
 
 
 def replay(chk, rep):
-    print(rep)
-    return 0
+    chk.build(M.BUILD_TARGETS[:1])
+    r = M.replay_part(chk, rep)
+    return 0 if r is None else r
 
 
 def finish(chk):
